@@ -13,8 +13,8 @@
 // Oracles:
 //
 //	(ii) no trace: the session without its rejected inputs gives, input by input, the same verdict / output / value /
-//	     error for all the other inputs. On a difference the rejected input to blame is found by removing them one at
-//	     a time.
+//	     error for all the other inputs. On a difference the rejected input to blame is found by keeping them one at
+//	     a time (which also shrinks the reported history).
 //	(i)  batch: for every accepted input (up to the first difference found by (ii)), a fresh non-incremental
 //	     compile+run of «all previously accepted inputs + this input» as one program (fresh runtime) prints, after the
 //	     marker that precedes the input, exactly what the session printed for it, and ends with the same result value
@@ -390,32 +390,43 @@ func checkSession(r *engine.R, seq []int) {
 		d, red, rres := firstDiff(seq, res, rejected)
 		if d >= 0 {
 			limit = d
-			// blame: the first rejected input before d whose removal alone changes what input d does
-			blame := -1
-			var bred []int
-			var bres []obs
+			// blame: the first rejected input before d that, kept as the only rejected input, still changes what a
+			// later input does (this also yields a smaller history to report)
+			rseq, rres0 := seq, res
+			rname, rdiag := "(several together)", ""
+			dd := d
 			for ri := 0; ri < d; ri++ {
 				if !rejected[ri] {
 					continue
 				}
-				one := map[int]bool{ri: true}
-				if d1, red1, rres1 := firstDiff(seq, res, one); d1 >= 0 && d1 <= d {
-					blame, bred, bres = ri, red1, rres1
-					d = d1
-					limit = d1
-					rejected = one
+				others := map[int]bool{}
+				for k := range rejected {
+					if k != ri {
+						others[k] = true
+					}
+				}
+				seqK, posK := without(seq, others)
+				resK := runSession(seqK)
+				riK := -1
+				for j, p := range posK {
+					if p == ri {
+						riK = j
+					}
+				}
+				if riK < 0 || resK[riK].Verdict != "rejected" {
+					continue
+				}
+				if d1, red1, rres1 := firstDiff(seqK, resK, map[int]bool{riK: true}); d1 >= 0 {
+					rname, rdiag = alphabet[seq[ri]].Name, "["+diagClass(resK[riK].Diags)+"]"
+					rseq, rres0, red, rres, dd = seqK, resK, red1, rres1, d1
+					rejected = map[int]bool{riK: true}
 					break
 				}
 			}
-			rname, rdiag := "(several together)", ""
-			if blame >= 0 {
-				rname, rdiag = alphabet[seq[blame]].Name, "["+diagClass(res[blame].Diags)+"]"
-				red, rres = bred, bres
-			}
-			want := obsAt(red, d, seq, rejected, rres)
-			sig := fmt.Sprintf("rejected input leaves a trace: rejected=%s%s damages=%s", rname, rdiag, alphabet[seq[d]].Res)
-			r.Violation(sig, fmt.Sprintf("history: %s\n%sinput %s was rejected, yet without it the session is\n%sinput %d (%s) gives  %s  with the rejected input and  %s  without it (%s)\n%s",
-				names(seq), render(seq, res), rname, render(red, rres), d, alphabet[seq[d]].Name, res[d], want, diffShape(res[d], want), res[d].Stack), input)
+			want := obsAt(red, dd, rseq, rejected, rres)
+			sig := fmt.Sprintf("rejected input leaves a trace: rejected=%s%s damages=%s", rname, rdiag, alphabet[rseq[dd]].Res)
+			r.Violation(sig, fmt.Sprintf("history: %s\nreduced to: %s\n%sinput %s was rejected, yet without it the session is\n%sinput %d (%s) gives  %s  with the rejected input and  %s  without it (%s)\n%s",
+				names(seq), names(rseq), render(rseq, rres0), rname, render(red, rres), dd, alphabet[rseq[dd]].Name, rres0[dd], want, diffShape(rres0[dd], want), rres0[dd].Stack), input)
 		}
 	}
 
@@ -577,6 +588,19 @@ func debugSession(arg string) {
 		for _, n := range strings.Split(arg, ",") {
 			inputs = append(inputs, alphabet[byName(n)].Src)
 		}
+	}
+	if os.Getenv("C27_CHECK") != "" { // run the oracles on the named history
+		var seq []int
+		for _, n := range strings.Split(arg, ",") {
+			seq = append(seq, byName(n))
+		}
+		r := &engine.R{}
+		checkSession(r, seq)
+		for _, v := range r.Viol {
+			fmt.Printf("VIOLATION %s\n%s\n", v.Sig, v.Detail)
+		}
+		fmt.Printf("%d violation(s)\n", len(r.Viol))
+		return
 	}
 	s := newSession()
 	for i, in := range inputs {
